@@ -52,7 +52,10 @@ PINS = [
     'mesonbuild.utils.universal:_substitute_values_check_errors',
     'mesonbuild.scripts.meson_exe:run_exe',
     'mesonbuild.scripts.meson_exe:run',
-    'mesonbuild.utils.core:EnvironmentVariables.hash',
+    'mesonbuild.utils.core:EnvironmentVariables',
+    'mesonbuild.backend.backends:Backend.get_run_target_env',
+    'mesonbuild.build:Generator.get_base_outnames',
+    'mesonbuild.build:Generator.get_dep_outname',
     'mesonbuild.mtest:SingleTestRunner._get_cmd',
     'mesonbuild.mtest:SingleTestRunner._get_test_cmd',
     'mesonbuild.mtest:SingleTestRunner.run',
@@ -861,6 +864,8 @@ def run(ctx: Ctx) -> None:
     try:
         _timed(ctx, 'tie_a', tie_a, ctx, scratch)
         _timed(ctx, 'datnames', tie_datnames, ctx, scratch)
+        from . import c03_env
+        _timed(ctx, 'env+gen', c03_env.tie_env, ctx, scratch)
         _timed(ctx, 'consumers', tie_consumers, ctx, scratch)
         from . import c03_e2e
         _timed(ctx, 'e2e', c03_e2e.run_e2e, ctx, scratch)
@@ -992,6 +997,9 @@ def replay(ctx: Ctx, rep: dict) -> None:
         if 'args' in case and isinstance(case['args'], list) and 'position' not in case:
             print('impl oracle (join_args -> /bin/sh):', oracle_quote_roundtrip(U, nb, scratch, case['args']))
             print('model shq:', [dec(x) for x in ctx.driver('quote', [f'shq {enc(a)}' for a in case['args']])])
+        from . import c03_env
+        if c03_env.replay_case(ctx, case):
+            return
         if 'position' in case:
             from . import c03_e2e
             c03_e2e.replay_case(ctx, scratch, case)
